@@ -8,6 +8,7 @@ CONSTANT AOs = {TRUE, FALSE}
 CONSTANT MaxPending = 2
 CONSTANT MaxInter = 2
 CONSTANT Acts <- AllActs
+CONSTANT PurgeRace = FALSE
 CONSTANT RecordReads = TRUE
 CONSTANT HitSteps = FALSE
 SPECIFICATION SimSpec
